@@ -193,7 +193,7 @@ def polytope_eq_collection(ctx):
 # ------------------------------------------------------------------------------------------------ bounded
 
 
-@case("C17", "measures.lattice", [], kind="bounded",
+@case("C17", "measures.lattice", [], kind="bounded", also=("C03",),
       functions=["geometer.shapes.RegularPolygon.center", "geometer.shapes.RegularPolygon.radius", "geometer.shapes.RegularPolygon.inradius", "geometer.shapes.PolygonTensor.area",
                  "geometer.shapes.Polyhedron.area", "geometer.shapes.Triangle.circumcenter", "geometer.shapes.SegmentTensor.midpoint"],
       bound="RegularPolygon n=3..8 x 6 centres x 3 radii (2D) and 4 axes (3D); 3D polygons = lattice polygons under 6 rigid motions; cuboids 3x3x3 sizes x 4 positions; "
@@ -213,6 +213,15 @@ def measures_lattice(ctx):
                 ctx.ensure("regular-polygon-radius", abs(dist(g.Point(*c), p.vertices[0]) - r) < 1e-7 and abs(p.radius - r) < 1e-7, witness=dict(w, got=float(p.radius)))
                 ctx.ensure("regular-polygon-inradius", abs(p.inradius - r * math.cos(math.pi / n)) < 1e-7, witness=dict(w, got=float(p.inradius)))
                 ctx.ensure("regular-polygon-area", abs(p.area - n * r * r * math.sin(2 * math.pi / n) / 2) < 1e-7, witness=dict(w, got=float(p.area)))
+                # the same polygon with other homogeneous representatives of its vertices (one row rescaled, one negated)
+                q = p.copy()
+                sc = np.ones(n)
+                sc[0], sc[n - 1] = 3.0, -2.0
+                q.array = p.array * sc[:, None]
+                ok = bool(q == p) and np.allclose(q.center.normalized_array[:-1], c, atol=1e-7) and abs(q.radius - r) < 1e-7 and abs(q.inradius - r * math.cos(math.pi / n)) < 1e-7 \
+                    and abs(q.area - p.area) < 1e-7
+                ctx.ensure("regular-polygon:measures-independent-of-the-vertex-representatives", ok, prop=("C17", "C03"),
+                           witness=dict(w, scales=sc.tolist(), center=q.center.normalized_array.tolist(), radius=float(q.radius), inradius=float(q.inradius)))
     for axis in [(0, 0, 1), (1, 1, 1), (1, 0, 2), (-1, 2, 0)]:
         for c in [(0, 0, 0), (1, 2, 3)]:
             p = RegularPolygon(g.Point(*c), 2, 5, axis=g.Point(*axis))
